@@ -14,20 +14,24 @@ Proof. exact compliance_cause. Qed.
 Check (C10_cause : forall off req p, compliance off req = Some p -> ~ RxO_p p off req).
 Print Assumptions C10_cause.
 
-(* the trace oracle used on the implementation's answers is exactly the property *)
+(* the trace oracle used on the implementation's answers is exactly the property: the direct
+   verdict and the verdict of each call site (when exercised) are "matched" only if every shared
+   policy satisfies its rule, name only a policy that really is incompatible, and the two sides
+   agree *)
 Theorem C10_oracle_sound : forall c o,
   ok c o = true <->
-  match o with None => RxO (fst c) (snd c) | Some p => ~ RxO_p p (fst c) (snd c) end.
+  verdict_P c (o_verdict o) /\ side_P c (o_writer_side o) /\ side_P c (o_reader_side o)
+  /\ sides_agree (o_writer_side o) (o_reader_side o) = true.
 Proof. exact ok_spec. Qed.
-Check (C10_oracle_sound : forall c o,
-  ok c o = true <->
-  match o with None => RxO (fst c) (snd c) | Some p => ~ RxO_p p (fst c) (snd c) end).
 Print Assumptions C10_oracle_sound.
 
 Theorem C10_model_ok : forall c, ok c (run c) = true.
 Proof. exact run_ok. Qed.
-Check (C10_model_ok : forall c, ok c (run c) = true).
 Print Assumptions C10_model_ok.
+
+Theorem C10_same_verdict : forall c, o_writer_side (run c) = o_reader_side (run c).
+Proof. exact sides_same. Qed.
+Print Assumptions C10_same_verdict.
 
 (* pinned commit: the full statement was false (findings F3a/F3b, repaired by fix: commits) *)
 Theorem C10_old_liveliness_refuted :
